@@ -106,11 +106,15 @@ class DBusClientConnection (txdbus.protocol.BasicDBusProtocol):
         for cb in self._dcCallbacks:
             cb(self, reason)
 
-        for d, timeout in self._pendingCalls.values():
-            if timeout:
-                timeout.cancel()
-            d.errback(reason)
-        self._pendingCalls = {}
+        # a failure handler may issue further calls on this (dead) connection
+        # while the outstanding ones are being failed: those are outstanding
+        # too and are failed by the same loss
+        while self._pendingCalls:
+            pending, self._pendingCalls = self._pendingCalls, {}
+            for d, timeout in pending.values():
+                if timeout:
+                    timeout.cancel()
+                d.errback(reason)
 
         self.objHandler.connectionLost(reason)
 
